@@ -1,60 +1,34 @@
 (* Properties/C33.v — virtual-hosted and path-style requests address the same resource; the website endpoint
-   and custom domains are read-only.   Model: Model/VHost.v ([route] = hostname router + virtual-host rewrite +
-   custom-domain fallback + the two ServeMux pattern sets of server.SetupServer; decoded paths).
+   and custom domains are read-only.   Model: Model/VHost.v ([route] = [route_gen true] = hostname router +
+   virtual-host rewrite of the CURRENT code (/repo 18a80a7) + custom-domain fallback + the two ServeMux pattern sets of
+   server.SetupServer; decoded paths).  [route_gen false] is the rewrite before that fix (historical Examples below).
    A virtual-hosted request for [bucket]/[key] has Host = bucket.api[:port] and path "/"key; its path-style twin
-   has Host = api[:port] and path "/"bucket"/"key.  [port_ok port]: no port, or ":" followed by bytes other
-   than ':' and ']'. *)
+   has Host = api[:port] and path "/"bucket"/"key.  A port is absent or ":" followed by bytes other than ':' and ']'. *)
 From Verif Require Import Bytes Codec VHost VHostProofs.
 
-Definition C33_vhost_eq_path_full : Prop :=
-  forall api web bucket port key method,
+(* for EVERY non-empty key (any bytes: trailing '/', "//", dot segments, '%', non-ASCII), every endpoint, bucket
+   label, port and method, both addressing styles are routed identically — whatever the mux then does with the path
+   (handler, redirect, 405), it does it to both.  The only key not covered is the empty key: there the virtual-hosted
+   request is the bucket root, see C33_vhost_root_is_bucket. *)
+Theorem C33_vhost_eq_path_full : forall api web bucket port key method,
   bucket <> [] -> ~ In ":"%byte bucket -> ~ In ":"%byte api ->
   (port = [] \/ exists ds, port = ":"%byte :: ds /\ ~ In ":"%byte ds /\ ~ In "]"%byte ds) ->
   key <> [] ->
   route api web ((bucket ++ "."%byte :: api) ++ port) (slash :: key) method =
   route api web (api ++ port) (slash :: bucket ++ slash :: key) method.
+Proof. exact vhost_eq_path_full_fixed_stmt. Qed.
+Print Assumptions C33_vhost_eq_path_full.
 
-(* violated by the code: PUT Host: bucket.s3.localhost /folder/  acts on key "folder", the path-style twin on "folder/" *)
-Theorem C33_vhost_eq_path_refuted : ~ C33_vhost_eq_path_full.
-Proof. exact vhost_eq_path_refuted_stmt. Qed.
-Print Assumptions C33_vhost_eq_path_refuted.
-
-Theorem C33_refuting_witness :
-  route B"s3.localhost" B"s3-website.localhost" B"bucket.s3.localhost" B"/folder/" B"PUT"
-    = Routed (ApiObject B"bucket" B"folder") /\
-  route B"s3.localhost" B"s3-website.localhost" B"s3.localhost" B"/bucket/folder/" B"PUT"
-    = Routed (ApiObject B"bucket" B"folder/").
-Proof. exact witness_values. Qed.
-Print Assumptions C33_refuting_witness.
-
-(* it holds for every endpoint, bucket, method, port and every key that does not end in '/' (any other bytes:
-   "//", dot segments, '%', non-ASCII — whatever the mux then does with the path, it does it to both) *)
-Theorem C33_vhost_eq_path_partial : forall api web bucket port k c method,
-  bucket <> [] -> ~ In ":"%byte bucket -> ~ In ":"%byte api ->
-  (port = [] \/ exists ds, port = ":"%byte :: ds /\ ~ In ":"%byte ds /\ ~ In "]"%byte ds) ->
-  c <> slash ->
-  route api web ((bucket ++ "."%byte :: api) ++ port) (slash :: k ++ [c]) method =
-  route api web (api ++ port) (slash :: bucket ++ slash :: k ++ [c]) method.
-Proof. exact vhost_eq_path_partial_stmt. Qed.
-Print Assumptions C33_vhost_eq_path_partial.
-
-(* the bare virtual-hosted root addresses the bucket itself *)
+(* empty key: the bare virtual-hosted root ("/" or an empty path) addresses the bucket itself, like path-style "/bucket" *)
 Theorem C33_vhost_root_is_bucket : forall api web bucket port method,
   bucket <> [] -> ~ In ":"%byte bucket -> ~ In ":"%byte api ->
   (port = [] \/ exists ds, port = ":"%byte :: ds /\ ~ In ":"%byte ds /\ ~ In "]"%byte ds) ->
   route api web ((bucket ++ "."%byte :: api) ++ port) [slash] method =
+  route api web (api ++ port) (slash :: bucket) method /\
+  route api web ((bucket ++ "."%byte :: api) ++ port) [] method =
   route api web (api ++ port) (slash :: bucket) method.
 Proof. exact vhost_root_is_bucket_stmt. Qed.
 Print Assumptions C33_vhost_root_is_bucket.
-
-(* what the code does with a key ending in '/': it addresses the key with ONE trailing slash removed *)
-Theorem C33_vhost_trailing_slash_dropped : forall api web bucket port k method,
-  bucket <> [] -> ~ In ":"%byte bucket -> ~ In ":"%byte api ->
-  (port = [] \/ exists ds, port = ":"%byte :: ds /\ ~ In ":"%byte ds /\ ~ In "]"%byte ds) ->
-  route api web ((bucket ++ "."%byte :: api) ++ port) (slash :: k ++ [slash]) method =
-  route api web (api ++ port) (slash :: bucket ++ slash :: k) method.
-Proof. exact vhost_trailing_slash_stmt. Qed.
-Print Assumptions C33_vhost_trailing_slash_dropped.
 
 (* website endpoint and custom domains: a request is handed to a handler only for GET/HEAD and only to the
    website handlers; API hosts never reach the website handlers *)
@@ -63,17 +37,47 @@ Theorem C33_website_readonly : forall api web host path method t,
   let on_api := bytes_eqb (strip_port host) api || is_suffix ("."%byte :: api) (strip_port host) in
   (on_api = false -> is_web_target t = true /\ (method = B"GET" \/ method = B"HEAD")) /\
   (on_api = true -> is_web_target t = false /\ In method api_methods).
-Proof. exact website_readonly_stmt. Qed.
+Proof. exact (website_readonly_stmt true). Qed.
 Print Assumptions C33_website_readonly.
 
 Theorem C33_website_never_mutates : forall api web host path method,
   bytes_eqb (strip_port host) api || is_suffix ("."%byte :: api) (strip_port host) = false ->
   method <> B"GET" -> method <> B"HEAD" ->
   forall t, route api web host path method <> Routed t.
-Proof. exact website_never_mutates_stmt. Qed.
+Proof. exact (website_never_mutates_stmt true). Qed.
 Print Assumptions C33_website_never_mutates.
 
+(* ---- HISTORICAL: the rewrite before /repo 18a80a7 ([route_gen false]: TrimSuffix("/"+bucket+path, "/")).
+   Machine-checked record of the old defect; says nothing about the current code. ---- *)
+Example C33_prefix_vhost_eq_path_refuted :
+  ~ (forall api web bucket port key method,
+     bucket <> [] -> ~ In ":"%byte bucket -> ~ In ":"%byte api ->
+     (port = [] \/ exists ds, port = ":"%byte :: ds /\ ~ In ":"%byte ds /\ ~ In "]"%byte ds) ->
+     key <> [] ->
+     route_gen false api web ((bucket ++ "."%byte :: api) ++ port) (slash :: key) method =
+     route_gen false api web (api ++ port) (slash :: bucket ++ slash :: key) method).
+Proof. exact prefix_vhost_eq_path_refuted_stmt. Qed.
+Example C33_prefix_witness :   (* PUT bucket.s3.localhost /folder/ acted on key "folder" *)
+  route_gen false B"s3.localhost" B"s3-website.localhost" B"bucket.s3.localhost" B"/folder/" B"PUT"
+    = Routed (ApiObject B"bucket" B"folder") /\
+  route_gen false B"s3.localhost" B"s3-website.localhost" B"s3.localhost" B"/bucket/folder/" B"PUT"
+    = Routed (ApiObject B"bucket" B"folder/").
+Proof. exact prefix_witness_values. Qed.
+Example C33_prefix_trailing_slash_dropped :   (* exactly one trailing slash of the key was cut off *)
+  forall api web bucket port k method,
+  bucket <> [] -> ~ In ":"%byte bucket -> ~ In ":"%byte api ->
+  (port = [] \/ exists ds, port = ":"%byte :: ds /\ ~ In ":"%byte ds /\ ~ In "]"%byte ds) ->
+  route_gen false api web ((bucket ++ "."%byte :: api) ++ port) (slash :: k ++ [slash]) method =
+  route_gen false api web (api ++ port) (slash :: bucket ++ slash :: k) method.
+Proof. exact prefix_vhost_trailing_slash_stmt. Qed.
+
 (* non-vacuity *)
+Example C33_ex_former_witness :   (* the former witness on the current code: both styles address "folder/" *)
+  route B"s3.localhost" B"s3-website.localhost" B"bucket.s3.localhost" B"/folder/" B"PUT"
+    = Routed (ApiObject B"bucket" B"folder/") /\
+  route B"s3.localhost" B"s3-website.localhost" B"s3.localhost" B"/bucket/folder/" B"PUT"
+    = Routed (ApiObject B"bucket" B"folder/").
+Proof. exact witness_values_now. Qed.
 Example C33_ex_same :
   route B"s3.localhost" B"s3-website.localhost" B"my.bucket.s3.localhost:8080" B"/a/b c/%41" B"GET"
     = Routed (ApiObject B"my.bucket" B"a/b c/%41") /\
